@@ -94,4 +94,79 @@ theorem collect_run {base : String} {fetch : String → Resp α} (conv : α → 
       have := ih n hlen (fun q hq => hc q (List.mem_cons_of_mem _ hq))
       simp [collect, hf, hy, hn, runUrls, this]
 
+/-! ### documents -/
+
+open Acn.HttpDate in
+/-- what `parse_dates` has to do to one field of a document whose zone has offset function `off` -/
+inductive FieldOk (off : Instant → Int) : String × Val → String × PVal → Prop
+  | date {k s : String} {t : Instant} :
+      parseRfc1123 s = some t → FieldOk off (k, .str s) (k, .date (toZone off t))
+  | keep {k s : String} : parseRfc1123 s = none → FieldOk off (k, .str s) (k, .str s)
+  | stamps {k : String} {l : List String} {ts : List Instant} :
+      l.map parseRfc1123 = ts.map some → FieldOk off (k, .ts l) (k, .ts (ts.map (toZone off)))
+  | other {k : String} : FieldOk off (k, .other) (k, .other)
+
+open Acn.HttpDate in
+/-- field-by-field: same keys, same order, every field converted as `FieldOk` says -/
+inductive DocOk (off : Instant → Int) : Doc → PDoc → Prop
+  | nil : DocOk off [] []
+  | cons {f : String × Val} {g : String × PVal} {d : Doc} {pd : PDoc} :
+      FieldOk off f g → DocOk off d pd → DocOk off (f :: d) (g :: pd)
+
+open Acn.HttpDate in
+theorem parseStamps_ok (off : Instant → Int) (l : List String) (as : List Aware)
+    (h : parseStamps off l = .ok as) :
+    ∃ ts : List Instant, l.map parseRfc1123 = ts.map some ∧ as = ts.map (toZone off) := by
+  induction l generalizing as with
+  | nil => simp [parseStamps] at h; subst h; exact ⟨[], rfl, rfl⟩
+  | cons s ss ih =>
+    unfold parseStamps at h
+    cases hp : parseRfc1123 s with
+    | none => simp [parseHttpDate, hp] at h
+    | some t =>
+      simp only [parseHttpDate, hp, Option.map_some] at h
+      cases hr : parseStamps off ss with
+      | error e => simp [hr] at h
+      | ok as' =>
+        simp only [hr, Except.ok.injEq] at h
+        obtain ⟨ts, h1, h2⟩ := ih as' hr
+        exact ⟨t :: ts, by simp [hp, h1], by rw [← h, h2]; rfl⟩
+
+open Acn.HttpDate in
+theorem parseFields_ok (off : Instant → Int) (d : Doc) (pd : PDoc) (h : parseFields off d = .ok pd) :
+    DocOk off d pd := by
+  induction d generalizing pd with
+  | nil => simp [parseFields] at h; subst h; exact .nil
+  | cons f rest ih =>
+    obtain ⟨k, v⟩ := f
+    unfold parseFields at h
+    cases hr : parseFields off rest with
+    | error e =>
+      cases v with
+      | str s => cases hp : parseHttpDate off s <;> simp [hp, hr] at h
+      | ts l => cases hs : parseStamps off l <;> simp [hs, hr] at h
+      | other => simp [hr] at h
+    | ok r =>
+      have ihr := ih r hr
+      cases v with
+      | str s =>
+        cases hp : parseRfc1123 s with
+        | none =>
+          simp [parseHttpDate, hp, hr] at h; subst h
+          exact .cons (.keep hp) ihr
+        | some t =>
+          simp [parseHttpDate, hp, hr] at h; subst h
+          exact .cons (.date hp) ihr
+      | ts l =>
+        cases hs : parseStamps off l with
+        | error e => simp [hs] at h
+        | ok as =>
+          simp [hs, hr] at h; subst h
+          obtain ⟨ts, h1, h2⟩ := parseStamps_ok off l as hs
+          subst h2
+          exact .cons (.stamps h1) ihr
+      | other =>
+        simp [hr] at h; subst h
+        exact .cons .other ihr
+
 end Acn.DataClient
